@@ -519,12 +519,12 @@ func rOrder(c *checkCtx) *found {
 				if cr.err != nil || cr.sum == nil {
 					return
 				}
-				for k, v := range cr.sum.Digests {
+				for k, v := range cr.sum.ODigests {
 					i, _ := strconv.Atoi(k)
 					compared++
 					if want, ok := b.digests[i]; ok && want != v && first == nil {
 						first = &found{From: j.from, I: i, Viol: Violation{Class: c.p.id + rOrderSuffix, Key: fmt.Sprintf("run %d", i),
-							Detail: fmt.Sprintf("run %d of seed %d gives event digest %x when the process executes runs %d..%d in ascending order and %x %s: state leaked from one run into another", i, c.seed, want, j.from, j.to-1, v, how)}}
+							Detail: fmt.Sprintf("run %d of seed %d gives outcome digest %x when the process executes runs %d..%d in ascending order and %x %s: state leaked from one run into another", i, c.seed, want, j.from, j.to-1, v, how)}}
 					}
 				}
 			}
@@ -552,7 +552,7 @@ func rOrderDiffers(c *checkCtx, from, to, i int) bool {
 		if cr.err != nil || cr.sum == nil {
 			return 0, false
 		}
-		v, ok := cr.sum.Digests[strconv.Itoa(i)]
+		v, ok := cr.sum.ODigests[strconv.Itoa(i)]
 		return v, ok
 	}
 	a, ok1 := get(runChunk(c.bin, c.p.id, c.seed, from, to, "asc", "-digests"))
